@@ -284,19 +284,30 @@ Definition detect_spec_history (c : cond) (evals : list (Z * ctx)) : list cres :
 Definition apply_history (c : cond) (records : list (list (Z * ctx))) : list anc := map (apply_rule c) records.
 Definition apply_spec_history (c : cond) (records : list (list (Z * ctx))) : list anc := map (apply_rule_spec c) records.
 
-(* ---------- the rule's distances over the life of a rule OBJECT.  Parser.__init__ assigns
-   rule.cutoff = int(rule.cutoff * multipliers.cutoff) after parsing `CUTOFF kb` (kb * 1000), and
-   Ruleset.__post_init__ assigns rule.cutoff = int(rule.cutoff * self.multipliers.cutoff) on the rule
-   objects it is given - the objects themselves, shared with every other holder; Ruleset.from_files passes
-   its multipliers to the parser AND to the constructor, copy_with_replacements (dataclasses.replace)
-   builds a new Ruleset and so runs __post_init__ again.  Multipliers are positive rationals num/den
-   (the harness uses dyadic ones, for which the float product and int() are exact = floor).  [cutoff_life]
-   lists the value of the attribute after parsing and after every Ruleset construction. ---------- *)
+(* ---------- the rule's distances through a sequence of Ruleset constructions.  Parser.__init__ assigns
+   rule.cutoff = int(rule.cutoff * multipliers.cutoff) after parsing `CUTOFF kb` (kb * 1000) on the object
+   it has just created.  Ruleset.__post_init__ (as repaired for C01-H1 / C07-K2) scales COPIES of the rule
+   objects it is given - rule = copy.copy(rule); rule.cutoff = int(rule.cutoff * self.multipliers.cutoff) -
+   and remembers the objects as given (_unscaled_rules); Ruleset.from_files parses WITHOUT multipliers and
+   passes them to the constructor only; copy_with_replacements (dataclasses.replace, so __post_init__
+   again) hands the new instance the remembered objects in place of its own scaled copies.  Multipliers
+   are positive rationals num/den (the harness uses dyadic ones, for which the float product and int() are
+   exact = floor).  A step is (copy?, multiplier): [false] = Ruleset(...) over the rule objects the newest
+   holder detects with (the parsed rules at first), [true] = newest.copy_with_replacements(rules=its rules,
+   multipliers=m).  The state is (value of the objects the newest holder was GIVEN, value it detects
+   with); [cutoff_life] lists the value seen through the parsed object and through every ruleset in turn
+   (no holder's value changes after its construction: every ruleset owns its objects). ---------- *)
 Definition scale (m : Z * Z) (c : Z) : Z := (c * fst m) / snd m.
 Definition parsed_cutoff (m : Z * Z) (kb : Z) : Z := scale m (kb * 1000).
-Definition cutoff_life (kb : Z) (m0 : Z * Z) (ms : list (Z * Z)) : list Z :=
-  let c0 := parsed_cutoff m0 kb in
-  snd (fold_left (fun st m => let c := scale m (fst st) in (c, snd st ++ [c])) ms (c0, [c0])).
+Fixpoint life_from (given current : Z) (steps : list (bool * (Z * Z))) : list Z :=
+  match steps with
+  | [] => []
+  | (copy, m) :: rest =>
+    let g := if copy then given else current in
+    let c := scale m g in c :: life_from g c rest
+  end.
+Definition cutoff_life (kb : Z) (m0 : Z * Z) (steps : list (bool * (Z * Z))) : list Z :=
+  let c0 := parsed_cutoff m0 kb in c0 :: life_from c0 c0 steps.
 
 (* ---------- encoding ---------- *)
 Fixpoint dCond (fuel : nat) : dec cond := fun l =>
@@ -398,9 +409,9 @@ Definition run_C01 (fn : Z) (l : list Z) : list Z :=
            end
          | None => bad_input
          end
-  | 9 => match l with                 (* cutoff attribute of a rule object: kb, parse multiplier, Ruleset multipliers *)
+  | 9 => match l with                 (* cutoff through Ruleset constructions: kb, parse multiplier, (copy?, multiplier)* *)
          | kb :: n0 :: d0 :: r =>
-           match dList (dPair dZ dZ) r with
+           match dList (dPair dBool (dPair dZ dZ)) r with
            | Some (ms, []) => eList (fun x => [x]) (cutoff_life kb (n0, d0) ms)
            | _ => bad_input
            end
